@@ -575,17 +575,29 @@ func transitionLineBreakState(state int, r rune, b []byte, str string) (newState
 	if rule > 250 &&
 		(state == lbPR || state == lbPO) &&
 		(nextProperty == prOP || nextProperty == prHY) {
-		var r rune
-		if b != nil { // Byte slice version.
-			r, _ = utf8.DecodeRune(b)
-		} else { // String version.
-			r, _ = utf8.DecodeRuneInString(str)
-		}
-		if r != utf8.RuneError {
-			pr, _ := propertyLineBreak(r)
+		for {
+			var (
+				r      rune
+				length int
+			)
+			if b != nil { // Byte slice version.
+				r, length = utf8.DecodeRune(b)
+				b = b[length:]
+			} else { // String version.
+				r, length = utf8.DecodeRuneInString(str)
+				str = str[length:]
+			}
+			if length == 0 { // End of text.
+				break
+			}
+			pr, gc := propertyLineBreak(r)
+			if pr == prCM || pr == prZWJ || pr == prSA && (gc == gcMn || gc == gcMc) {
+				continue // LB9: these are attached to the OP or HY.
+			}
 			if pr == prNU {
 				return lbNU, LineDontBreak
 			}
+			break
 		}
 	}
 
